@@ -607,3 +607,64 @@ def run_p13_p15(chk, repo):
                           witness='$OMEGA 0.1 0.2 ; IIV_V   remove the second eta: OMEGA_1_1 re-reads as IIV_V')
         if not may:
             raise AnalysisError('P15: the keep list of OmegaRecord.remove is never appended to for a comment node')
+
+
+def run_p16(chk, repo):
+    """update_random_variable_records collects the edits of a multi-value diagonal record in accumulators and flushes them at
+    the record boundary: every accumulator read by the flush must be emptied whenever the record index advances there"""
+    P16 = chk.rule('P16', 'update_random_variable_records: at the record boundary every per-record accumulator is reset on '
+                          'every path (unconditionally, next to the advance of the record index)', floor=2)
+    um = repo.module('pharmpy.model.external.nonmem.update')
+    f = um.functions.get('update_random_variable_records')
+    if f is None:
+        raise AnalysisError('update_random_variable_records not found')
+    loops = [L for L in walk_no_nested(f.node) if isinstance(L, ast.For)]
+    n = 0
+    for L in loops:
+        appended = {c.func.value.id for c in ast.walk(L) if isinstance(c, ast.Call) and isinstance(c.func, ast.Attribute)
+                    and c.func.attr == 'append' and isinstance(c.func.value, ast.Name)}
+        for I in [x for x in L.body if isinstance(x, ast.If)]:
+            adv = [s_ for s_ in I.body if isinstance(s_, ast.AugAssign) and isinstance(s_.op, ast.Add)
+                   and isinstance(s_.target, ast.Name)]
+            if not adv:
+                continue
+            read = {x.id for s_ in I.body for x in ast.walk(s_) if isinstance(x, ast.Name) and isinstance(x.ctx, ast.Load)}
+            accs = sorted(a for a in appended & read
+                          if any(isinstance(s_, ast.Assign) and any(a in {y.id for y in ast.walk(t) if isinstance(y, ast.Name)}
+                                                                      for t in s_.targets) for s_ in ast.walk(f.node))
+                          and not any(isinstance(c, ast.Call) and isinstance(c.func, ast.Attribute) and c.func.attr == 'append'
+                                      and isinstance(c.func.value, ast.Name) and c.func.value.id == a for s_ in I.body
+                                      for c in ast.walk(s_)))
+            if not accs:
+                continue
+
+            def resets(stmt, a):
+                # a = [] / a = list() / a, b = [], 0 / a.clear()  as a top-level statement of the flush block
+                if isinstance(stmt, ast.Assign):
+                    for t in stmt.targets:
+                        if isinstance(t, ast.Name) and t.id == a and isinstance(stmt.value, (ast.List, ast.Call)) \
+                                and not getattr(stmt.value, 'elts', None) and not getattr(stmt.value, 'args', None):
+                            return True
+                        if isinstance(t, ast.Tuple) and isinstance(stmt.value, ast.Tuple) and len(t.elts) == len(stmt.value.elts):
+                            for te, ve in zip(t.elts, stmt.value.elts):
+                                if isinstance(te, ast.Name) and te.id == a and isinstance(ve, ast.List) and not ve.elts:
+                                    return True
+                if isinstance(stmt, ast.Expr) and isinstance(stmt.value, ast.Call) and isinstance(stmt.value.func, ast.Attribute) \
+                        and stmt.value.func.attr == 'clear' and isinstance(stmt.value.func.value, ast.Name) \
+                        and stmt.value.func.value.id == a:
+                    return True
+                return False
+            for a in accs:
+                n += 1
+                ok = any(resets(s_, a) for s_ in I.body)
+                chk.instance(P16, f'update_random_variable_records: `{a}` is emptied unconditionally where `{unparse(adv[0])}` '
+                                  f'closes the record: {ok}')
+                if not ok:
+                    chk.violation(P16, um.rel, f.name, f'{a} not reset with {unparse(adv[0])}',
+                                  f'the edits collected in `{a}` for one multi-value record survive into the next one (on some '
+                                  f'path): its values are removed / rewritten from the wrong parameters', line=I.lineno,
+                                  witness='$OMEGA 0.09 0.04 followed by $OMEGA 0.25 0.16: update_source of the unmodified model '
+                                          'turns the second record into $OMEGA 0.09 0.04; or joining the two etas of the first '
+                                          'record removes values of the second')
+    if n == 0:
+        raise AnalysisError('P16: flush block of update_random_variable_records not recognised')
